@@ -82,6 +82,72 @@ def lik_translator(env=None):
     return Translator(env or {}, attr_hook=attr_hook, call_hook=call_hook)
 
 
+def autofold_by_value(prog, q):
+    """the automatic folding of the model, decided on the six worlds (data without a `folded` attribute / unfolded / folded) x (model
+    unfolded / folded) by abstract execution: `model.fold()` is called exactly when the data are folded and the model is not, before
+    the model is used for anything else, and nothing computed afterwards reads the unfolded model.  -> (ok, detail, line)"""
+    from sa import miniexec as mx
+    m = prog.mod(INF)
+    fn = prog.func(INF, q)
+    bad, unrec = [], []
+    holder = {}
+    names = [a.arg for a in fn.args.args]
+    for df in (None, False, True):
+        for mf in (False, True):
+            tag = 'data %s, model %s' % ('without the attribute' if df is None else ('folded' if df else 'unfolded'), 'folded' if mf else 'unfolded')
+            dattrs = {'folded_ancestral': False, 'folded_major': False}
+            if df is not None:
+                dattrs['folded'] = df
+            data = mx.Sym('data', attrs=dattrs)
+            model = mx.Sym('model', attrs={'folded': mf, 'folded_ancestral': False, 'folded_major': False})
+
+            def hook(nm, args, kwargs):
+                if nm == 'hasattr' and len(args) == 2 and isinstance(args[0], mx.Sym) and isinstance(args[1], str) and args[0].text in ('data', 'model'):
+                    return args[1] in args[0].attrs
+                if nm == 'getattr' and len(args) in (2, 3) and isinstance(args[0], mx.Sym) and isinstance(args[1], str) and args[0].text in ('data', 'model'):
+                    if args[1] in args[0].attrs:
+                        return args[0].attrs[args[1]]
+                    if len(args) == 3:
+                        return args[2]
+                    return mx.Sym('%s.%s' % (args[0].text, args[1]))      # a method looked up by name
+                if nm == 'model.fold' and not args:
+                    holder['it'].path.events.append(('call', 'model.fold', (), {}))
+                    return mx.Sym('model.fold()', attrs={'folded': True, 'folded_ancestral': False, 'folded_major': False})
+                return NotImplemented
+            it = mx.Interp(prog, m, call_hook=hook, symbolic_loops=True)
+            holder['it'] = it
+            args = {'model': model, 'data': data}
+            for n in names[2:]:
+                args[n] = mx.Sym(n)
+            try:
+                paths = it.run(fn, args)
+            except mx.Undecidable as e:
+                unrec.append('%s: %s' % (tag, e))
+                continue
+            want = bool(df) and not mf
+            for outcome, events, _dec in paths:
+                folds = [i for i, e in enumerate(events) if e[0] == 'call' and e[1] == 'model.fold']
+                if bool(folds) != want:
+                    bad.append('%s: the model is %s' % (tag, 'folded' if folds else 'not folded'))
+                    break
+                if want:
+                    # nothing before the fold uses the model, nothing after it reads the unfolded model
+                    before = [e for e in events[:folds[0]] if e[0] == 'call' and any('model' in mx.show(a) for a in list(e[2]) + list(e[3].values()))]
+                    after_txt = ' '.join(mx.show(x) for e in events[folds[0] + 1:] for x in (list(e[2]) + list(e[3].values()) if e[0] == 'call' else list(e[1:]))) + ' ' + (mx.show(outcome[1]) if outcome[0] == 'return' else '')
+                    stale = re.search(r'(?<![\w.])model(?!\.fold\(\))(?![\w])', after_txt.replace('model.fold()', 'MF'))
+                    if before:
+                        bad.append('%s: %s is evaluated on the unfolded model before the fold' % (tag, before[0][1]))
+                        break
+                    if stale:
+                        bad.append('%s: the unfolded model is still read after the fold' % tag)
+                        break
+    if bad:
+        return False, '; '.join(bad)[:300], fn.lineno
+    if unrec:
+        return False, 'not recognised: ' + '; '.join(unrec)[:300], fn.lineno
+    return True, 'model.fold() exactly when the data are folded and the model is not, before any other use (6 worlds executed abstractly)', fn.lineno
+
+
 def run(rep, prog, tier):
     m = prog.mod(INF)
     rep.saw_file(m.rel)
@@ -182,7 +248,12 @@ def run(rep, prog, tier):
                     parts.append(x.struct[1] if okp else None)
                 if okp:
                     im_ = mx.call_of(parts[0], 'intersect_masks')
-                    okp = mx.show(parts[0]) == mx.show(parts[1]) and im_ is not None and len(im_[0]) == 2 and mx.show(im_[0][1]) == 'data' and mx.show(im_[0][0]).split('.')[0] == 'model'
+                    if im_ is not None:
+                        # positional or keyword arguments, in the order of the callee's parameters
+                        pp_ = positional_params(prog.func(NUM, 'intersect_masks'))
+                        a_ = list(im_[0]) + [im_[1][q_] for q_ in pp_[len(im_[0]):] if q_ in im_[1]]
+                        im_ = (a_, {k_: v_ for k_, v_ in im_[1].items() if k_ not in pp_})
+                    okp = mx.show(parts[0]) == mx.show(parts[1]) and im_ is not None and len(im_[0]) == 2 and not im_[1] and mx.show(im_[0][1]) == 'data' and mx.show(im_[0][0]).split('.')[0] == 'model'
             ok = ok and okp
         det = '%d paths (the automatic folding of the model forks): %s' % (len(got), got[0][:110] if got else '')
     except mx.Undecidable as e:
@@ -318,11 +389,8 @@ def run(rep, prog, tier):
         rep.ob('R-TPL', '%s masking' % nm_, okm, '; '.join(det[:2]) if not okm else 'entries with model <= mask and data <= mask are masked', m.rel, fn.lineno, what='documented residual masking')
     # ---- auto-fold guards ---------------------------------------------------------------------------------------------------------
     for q in ('ll_per_bin', 'linear_Poisson_residual', 'Anscombe_Poisson_residual', 'optimal_sfs_scaling'):
-        fn = prog.func(INF, q)
-        stm = [s for s in fn.body if not (isinstance(s, ast.Expr) and isinstance(s.value, ast.Constant))]
-        first = stm[0]
-        ok = isinstance(first, ast.If) and ast.unparse(first.test) == "hasattr(data, 'folded') and data.folded and (not model.folded)" and ast.unparse(first.body[0]) == 'model = model.fold()' and not first.orelse
-        rep.ob('R-DOM', 'Inference.%s auto-fold' % q, ok, ast.unparse(first)[:110], m.rel, first.lineno, what='model folded against folded data before anything else')
+        ok, det, line = autofold_by_value(prog, q)
+        rep.ob('R-DOM', 'Inference.%s auto-fold' % q, ok, det, m.rel, line, what='model folded against folded data before anything else')
     # ---- homogeneity in the model scale ------------------------------------------------------------------------------------------------
     lam = Rat.atom('lam')
     M, D = Rat.atom('SUM_model'), Rat.atom('SUM_data')
